@@ -246,9 +246,9 @@ def run(chk, prog):
                     continue
                 chk.analysed(function=wfn["full"])
                 chk.analysed(function=rfn["full"])
-                we = G.Extractor(wfn, "w")
+                we = G.Extractor(wfn, "w", lib)
                 wi = we.run()
-                re_ = G.Extractor(rfn, "r")
+                re_ = G.Extractor(rfn, "r", lib)
                 ri = re_.run()
                 npairs += 1
                 wfn["_via"] = we.members_via_locals
@@ -355,6 +355,9 @@ def run(chk, prog):
 
 
 # ------------------------------------------------------------------------------------------
+_LOCAL_ALIAS = {}      # const local of the restart constructor -> the member it is stored in (`_m = local;`)
+
+
 def _tree(e, env, depth=0):
     """Operation tree of an expression as a nested tuple with member references replaced by env."""
     e = C.strip_casts(e)
@@ -366,6 +369,8 @@ def _tree(e, env, depth=0):
     if k == "Float":
         return ("num", float(e["v"]))
     if k == "Ref":
+        if e.get("n") in _LOCAL_ALIAS and depth < 3:
+            return _tree(_LOCAL_ALIAS[e["n"]], env, depth + 1)
         return ("ref", e["n"])
     if k in ("Mem", "Idx") or (k == "Call" and e.get("op") == "[]") or \
             (k == "Call" and e.get("obj") is not None and not e["a"] and e.get("n") in ("x", "y", "z")):
@@ -467,6 +472,19 @@ def derived_same_tree(lib, rec, clsq, cls, m, field, rfn, rexprs):
     if not pdefs:
         return True, "primary constructor does not define the member directly; not compared"
     rex = rexprs[0]
+    # const locals of the restart constructor that are stored unchanged in a member stand for that member
+    _LOCAL_ALIAS.clear()
+    const_locals = set()
+    for x in C.walk_stmt(rfn["body"]):
+        if x.get("k") == "Decl":
+            for d in x["d"]:
+                if (d.get("t") or "").startswith("const "):
+                    const_locals.add(d["n"])
+    for x in C.walk_stmt(rfn["body"]):
+        if x.get("k") == "Bin" and x["op"] == "=" and C.member_name(x["a"]):
+            r0 = C.strip_casts(x["b"])
+            if r0.get("k") == "Ref" and r0.get("n") in const_locals:
+                _LOCAL_ALIAS.setdefault(r0["n"], x["a"])
     for ct, pex, env in pdefs:
         pc, rc = _vec_components(pex), _vec_components(rex)
         if pc and rc:
@@ -481,6 +499,7 @@ def derived_same_tree(lib, rec, clsq, cls, m, field, rfn, rexprs):
                                "different floating-point operation trees (after substituting the primary definitions of "
                                "the members it is derived from), so a restarted run can differ in the last bits" %
                                (m, C.pretty(re_), ct["full"], C.pretty(pe)))
+    _LOCAL_ALIAS.clear()
     return True, "same operation tree as the primary constructor"
 
 
